@@ -162,6 +162,18 @@ def run(case) -> CaseResult:
     if not np.array_equal(Qi.view(np.int32), want.view(np.int32)):
         i, j = [int(v[0]) for v in np.where(Qi.view(np.int32) != want.view(np.int32))]
         res.fail(f"C14.independence:{tag}", f"E{E}M{M} srbits={eff}: element ({i},{j}) with x={float(xs[i]).hex()} draw={int(R[i, j])} gave {float(Qi[i, j]).hex()}, single-element result {float(want[i, j]).hex()}")
+    # an input with stride-0 dimensions (expand / broadcast_to, the gradient of sum()): same request, same result, element-wise draws
+    Xe = torch.from_numpy(xs)[:, None].expand(len(xs), N)
+    d3 = Draws(lambda low, high, size: torch.arange(low, high).expand(size) if size[-1] == high - low else REAL_RANDINT(low, high, size))
+    try:
+        with patch("torch.randint", d3):
+            Qe = fmt.quantise(Xe)
+        if len(d3.calls) != 1 or d3.calls[0] != (0, N, tuple(Xe.shape)):
+            res.fail(f"C14.draw-request:expanded-input", f"E{E}M{M} srbits={eff}: for an expanded (stride-0) input torch.randint was asked for {d3.calls[:2]}, expected (0, {N}, {tuple(Xe.shape)}): elements along the expanded dimension would share draws")
+        elif not np.array_equal(Qe.numpy().view(np.int32), Qt.numpy().view(np.int32)):
+            res.fail(f"C14.expanded-input", f"E{E}M{M} srbits={eff}: quantising an expanded view gives other values than its contiguous copy for the same draws")
+    except Exception as e:  # noqa: BLE001
+        res.fail(exc_bucket("C14.raises:expanded-input", e), f"E{E}M{M} srbits={sr}: {type(e).__name__}: {e}")
     nt = int(((p > 0) & (p < 1)).sum())
     res.evals = len(xs)
     res.nontrivial_n = nt
